@@ -14,6 +14,18 @@
 
 #include "stream.h"
 
+/* decode next message, enlarge input queue if decoder is out of space */
+static int nextMessage(MPT_STRUCT(stream) *srm)
+{
+	int ret = mpt_queue_recv(&srm->_rd);
+	
+	if (ret == MPT_ERROR(MissingBuffer)
+	    && mpt_queue_prepare(&srm->_rd.data, 64)) {
+		ret = mpt_queue_recv(&srm->_rd);
+	}
+	return ret;
+}
+
 /*!
  * \ingroup mptStream
  * \brief wait for return messages
@@ -67,7 +79,7 @@ extern int mpt_stream_sync(MPT_STRUCT(stream) *srm, size_t idlen, const MPT_STRU
 		/* get message data */
 		if (srm->_rd._state.data.msg < 0) {
 			/* next message in data already loaded */
-			ret = mpt_queue_recv(&srm->_rd);
+			ret = nextMessage(srm);
 			if (ret < 0 && ret != MPT_ERROR(MissingData)) {
 				return ret;
 			}
@@ -82,7 +94,7 @@ extern int mpt_stream_sync(MPT_STRUCT(stream) *srm, size_t idlen, const MPT_STRU
 				if (timeout > 0) {
 					timeout = 0;
 				}
-				if ((ret = mpt_queue_recv(&srm->_rd)) < 0) {
+				if ((ret = nextMessage(srm)) < 0) {
 					return ret;
 				}
 				/* message still incomplete */
